@@ -4,8 +4,8 @@
   Strings are byte strings (`Bytes`), as in the Go code.
 -/
 import BtcVerif.Proofs.Base58
-import BtcVerif.Model.Bech32
-import BtcVerif.Spec.Bech32
+import BtcVerif.Proofs.Bech32Ref
+import BtcVerif.Proofs.Bech32EncRef
 
 namespace BtcVerif.Props.C08
 open BtcVerif BtcVerif.Model
@@ -78,5 +78,132 @@ theorem b58c_no_panic (ck : Bytes → Bytes) (s : Bytes) : Base58Check.decode ck
 
 /-- the hypothesis on the checksum function is satisfiable -/
 example : ∀ x : Bytes, ((fun _ => [1, 2, 3, 4]) x : Bytes).length = 4 := fun _ => rfl
+
+/-! ### Bech32 -/
+
+open Proofs.Bech32 in
+/-- the checksum computation is XOR-linear: runs over value lists of the same length add up -/
+theorem polymod_linear (xs ys : List Nat) (c d : Nat) (h : xs.length = ys.length) :
+    pm (c ^^^ d) (List.zipWith (· ^^^ ·) xs ys) = pm c xs ^^^ pm d ys :=
+  pm_linear xs ys c d h
+
+/-- `bech32Polymod` is `pm` started at 1 -/
+theorem polymod_is_pm (vs : List Nat) : Bech32.polymod vs = Proofs.Bech32.pm 1 vs := rfl
+
+/-- the six values `bech32CreateChecksum` appends make `bech32VerifyChecksum` succeed -/
+theorem checksum_verifies (hrp : Bytes) (values : List Nat) (hv : ∀ v ∈ values, v < 32) :
+    Bech32.verifyChecksum hrp (values ++ Bech32.createChecksum hrp values) = true :=
+  Proofs.Bech32.verify_create hrp values hv
+
+/-- … and no other six values do -/
+theorem checksum_unique (hrp : Bytes) (values cs : List Nat) (hv : ∀ v ∈ values, v < 32)
+    (hcl : cs.length = 6) (hc : ∀ c ∈ cs, c < 32)
+    (h : Bech32.verifyChecksum hrp (values ++ cs) = true) : cs = Bech32.createChecksum hrp values :=
+  Proofs.Bech32.verify_unique hrp values cs hv hcl hc h
+
+/-- the model's checksum is the reference's -/
+theorem checksum_eq_reference (hrp : Bytes) (d : List Nat) :
+    Bech32.verifyChecksum hrp d = Spec.Bech32.verifyChecksum hrp d :=
+  Proofs.Bech32.verify_eq_spec hrp d
+
+/-- decode ∘ encode: for a valid human-readable part (non-empty, characters 33..126, no upper
+    case), a version below 32, a non-empty payload and a total length of at most 90 characters,
+    `Encode` succeeds and `Decode` returns exactly the three inputs -/
+theorem bech32_dec_enc (hrp : Bytes) (version : Nat) (data : Bytes) (hh : Proofs.Bech32.ValidHrp hrp)
+    (hv : version < 32) (hne : data ≠ [])
+    (hlen : hrp.length + 8 + (8 * data.length + 4) / 5 ≤ 90) :
+    ∃ s, Bech32.encode hrp version data = .ok s ∧ Bech32.decode s = .ok (hrp, version, data) := by
+  obtain ⟨k, hk, _, _, hcount⟩ := Proofs.Bech32.bytesToIndices_facts data hne
+  exact Proofs.Bech32.decode_encode hrp version data hh hv hne (by omega)
+
+/-- encode ∘ decode: whatever `Decode` accepts re-encodes to the (lower-cased) input, so no two
+    strings that differ by more than case denote the same (hrp, version, payload) -/
+theorem bech32_enc_dec_canonical (s hrp : Bytes) (version : Nat) (data : Bytes)
+    (hd : Bech32.decode s = .ok (hrp, version, data)) :
+    Bech32.encode hrp version data = .ok (Bech32.lower s) :=
+  Proofs.Bech32.encode_decode s hrp version data hd
+
+/-- a string is accepted exactly when the BIP173 reference decoder accepts it, with the same
+    result — for EVERY string (mixed case, characters outside the alphabet, lengths, empty data
+    part, non-zero or over-long padding, checksum) -/
+theorem model_eq_reference (s : Bytes) : Bech32.decode s = Spec.Bech32.bip173Decode s :=
+  Proofs.Bech32.decode_eq_spec s
+
+/-- on its domain (non-empty payload, version below 32, at most 90 characters) `Encode` returns
+    exactly the string of the BIP173 reference encoder
+    `bech32_encode(hrp, [version] + convertbits(payload, 8, 5))` -/
+theorem bech32_enc_eq_reference (hrp : Bytes) (version : Nat) (data : Bytes) (hne : data ≠ [])
+    (hv : version < 32) (hlen : hrp.length + 8 + (8 * data.length + 4) / 5 ≤ 90) :
+    Spec.Bech32.toOutcome (Spec.Bech32.bip173Encode hrp version data) = Bech32.encode hrp version data := by
+  obtain ⟨k, hk, _, _, hcount⟩ := Proofs.Bech32.bytesToIndices_facts data hne
+  exact Proofs.Bech32.encode_eq_spec hrp version data hne hv (by omega)
+
+/-- neither direction can panic -/
+theorem no_panic (s : Bytes) : Bech32.decode s ≠ .panic := Proofs.Bech32.decode_ne_panic s
+
+theorem encode_no_panic (hrp : Bytes) (version : Nat) (hb : version < 256) (data : Bytes) :
+    Bech32.encode hrp version data ≠ .panic :=
+  Proofs.Bech32.encode_ne_panic hrp version hb data
+
+/-- `Encode` never returns a string longer than 90 characters (D13) -/
+theorem encode_length_le (hrp : Bytes) (version : Nat) (hb : version < 256) (data s : Bytes)
+    (h : Bech32.encode hrp version data = .ok s) : s.length ≤ 90 :=
+  Proofs.Bech32.encode_length_le hrp version hb data s h
+
+/-- error detection at the level of data values: if `data` verifies, no value list of the same
+    length at Hamming distance 1 or 2 verifies (data parts of up to 89 values; a 90-character
+    string has at most 88). The proof is XOR-linearity, injectivity of the zero-input state
+    transition, and a kernel-checked table of 31 × 88 polymod rounds over the regenerated
+    generator constants. -/
+theorem detects_two_substitutions (hrp : Bytes) (data data' : List Nat)
+    (hlen : data'.length = data.length) (hd : ∀ x ∈ data, x < 32) (hd' : ∀ x ∈ data', x < 32)
+    (hmax : data.length ≤ 89) (hv : Bech32.verifyChecksum hrp data = true)
+    (h1 : 1 ≤ Proofs.Bech32.hamming data data') (h2 : Proofs.Bech32.hamming data data' ≤ 2) :
+    Bech32.verifyChecksum hrp data' = false :=
+  Proofs.Bech32.detects_two hrp data data' hlen hd hd' hmax hv h1 h2
+
+/-- … and at the level of strings: substituting one or two data characters of a valid string
+    (of at most 90 characters) by other alphabet characters gives a string `Decode` rejects -/
+theorem detects_two_substitutions_string (hrp : Bytes) (hh : Proofs.Bech32.ValidHrp hrp)
+    (data data' : List Nat) (hlen : data'.length = data.length) (hd : ∀ x ∈ data, x < 32)
+    (hd' : ∀ x ∈ data', x < 32) (htot : hrp.length + 1 + data.length ≤ 90)
+    (hv : Bech32.verifyChecksum hrp data = true)
+    (h1 : 1 ≤ Proofs.Bech32.hamming data data') (h2 : Proofs.Bech32.hamming data data' ≤ 2) :
+    Bech32.decode (hrp ++ [Bech32.sepChar] ++ data'.map Proofs.Bech32.achar) = .err := by
+  have hhl : 1 ≤ hrp.length := by
+    cases hrp with
+    | nil => exact absurd rfl hh.ne
+    | cons _ _ => simp
+  have hbad := detects_two_substitutions hrp data data' hlen hd hd' (by omega) hv h1 h2
+  by_cases hval : ∃ pos, Proofs.Bech32.ValidAt (hrp ++ [Bech32.sepChar] ++ data'.map Proofs.Bech32.achar) pos
+  · obtain ⟨pos, hval⟩ := hval
+    obtain ⟨p1, p2, _, _, p5, _⟩ := Proofs.Bech32.map_achar_props data' hd'
+    have hs : hrp ++ [Bech32.sepChar] ++ data'.map Proofs.Bech32.achar =
+        hrp ++ Bech32.sepChar :: data'.map Proofs.Bech32.achar := by simp
+    have hpos : pos = hrp.length := by
+      have h1 := hval.sep
+      rw [hs, Proofs.Bech32.rfind_append Bech32.sepChar hrp _ p2] at h1
+      injection h1 with h1; exact h1.symm
+    subst hpos
+    rw [Proofs.Bech32.decode_normal _ _ hval]
+    have hsepl : Bech32.lowerByte Bech32.sepChar = Bech32.sepChar := by decide
+    have hlow : Bech32.lower (hrp ++ [Bech32.sepChar] ++ data'.map Proofs.Bech32.achar) =
+        hrp ++ [Bech32.sepChar] ++ data'.map Proofs.Bech32.achar := by
+      simp only [Bech32.lower, List.map_append, List.map_cons, List.map_nil, hsepl]
+      have h1 : hrp.map Bech32.lowerByte = hrp := hh.lowercase
+      have h2 : (data'.map Proofs.Bech32.achar).map Bech32.lowerByte = data'.map Proofs.Bech32.achar := p5
+      rw [h1, h2]
+    rw [hlow]
+    have htake : (hrp ++ [Bech32.sepChar] ++ data'.map Proofs.Bech32.achar).take hrp.length = hrp := by
+      rw [List.append_assoc]; exact List.take_left' rfl
+    have hdrop : (hrp ++ [Bech32.sepChar] ++ data'.map Proofs.Bech32.achar).drop (hrp.length + 1) =
+        data'.map Proofs.Bech32.achar := List.drop_left' (by simp)
+    rw [htake, hdrop, p1, hbad]
+    simp
+  · exact Proofs.Bech32.decode_invalid _ hval
+
+/-- the hypotheses are satisfiable: the BIP173 test vector `a12uel5l` (hrp "a", empty data) -/
+example : Bech32.verifyChecksum [0x61] [10, 28, 25, 31, 20, 31] = true := by decide
+example : Proofs.Bech32.ValidHrp [0x62, 0x63] := ⟨by decide, by decide, by decide⟩
 
 end BtcVerif.Props.C08
